@@ -41,6 +41,12 @@ theorem gen_shape_pinned :
        "last_seen", "lower-watermark", "return"] := by
   decide
 
+/-- every function the model transcribes by hand still reads as it did when it was transcribed (whole source, not only
+    constants: the `elif` of `purge_devices`, the decisive last line of `is_usable_location`, the `ipv4_mapped` unwrapping, …) -/
+theorem gen_sources_pinned :
+    Gen.C03Tracker.sources = transcribedSources ∧ Gen.C03Tracker.usableLocationSrc = transcribedUsableLocation :=
+  ⟨rfl, rfl⟩
+
 /-- the state after a history -/
 def final (s : Tracker σ) (evs : List (Ev σ)) : Tracker σ := evs.foldl (fun s e => (step ipv skip s e).1) s
 
@@ -134,6 +140,54 @@ example :
     ok (traceOf ipv skip le {} evs) = true ∧
     ok [(mk .search 0 1 50 5, [⟨1, 5, [(50, 5)], some 50⟩]), (.purge 6, [⟨1, 5, [(50, 5)], some 50⟩])] = false := by
   decide
+
+/-! ### soundness of the judge (no model involved): what `ok` implies for an ARBITRARY trace -/
+
+/-- **ok_expired_sound** — for any trace whatsoever (e.g. the implementation's) that the judge accepts: right after a step
+    that is an explicit purge at `t` or a valid sighting at `t`, every device in the observed map has a valid sighting of
+    its udn earlier in the trace (that step included) whose validity `ts + max-age` is ≥ `t` — i.e. `ok` really forces "no
+    device whose validity ended before `t` remains", with validity read from the messages. -/
+theorem ok_expired_sound (a b : List (Ev σ × Snap σ)) (e : Ev σ) (after : Snap σ) (t : Int)
+    (h : ok (a ++ (e, after) :: b) = true)
+    (het : e = .purge t ∨ ∃ m, e = .msg m ∧ m.ts = t ∧ m.sighting?.isSome = true) :
+    ∀ d ∈ after, ∃ m l, Ev.msg m ∈ a.map (·.1) ++ [e] ∧ m.sighting? = some (d.udn, l) ∧ t ≤ m.ts + m.maxAge := by
+  suffices H : ∀ (a : List (Ev σ × Snap σ)) (evs0 : List (Ev σ)) (sp : Sp σ) (before : Snap σ), SpFrom evs0 sp →
+      okFrom sp before (a ++ (e, after) :: b) = true →
+      ∀ d ∈ after, ∃ m l, Ev.msg m ∈ evs0 ++ (a.map (·.1) ++ [e]) ∧ m.sighting? = some (d.udn, l) ∧
+        t ≤ m.ts + m.maxAge by
+    have := H a [] [] [] spFrom_nil h
+    simpa using this
+  intro a
+  induction a with
+  | nil =>
+    intro evs0 sp before hsp hok d hd
+    simp only [List.nil_append, okFrom, Bool.and_eq_true] at hok
+    have hsp' := spFrom_step hsp e
+    have hexp : expiredGoneOk (specStep sp e) t after = true := by
+      have h1 := hok.1
+      unfold stepOk at h1
+      simp only [Bool.and_eq_true] at h1
+      rcases het with rfl | ⟨m, rfl, rfl, hs⟩
+      · simp only [Bool.and_eq_true] at h1; exact h1.2.1
+      · cases hsi : m.sighting? with
+        | none => rw [hsi] at hs; cases hs
+        | some p => simp only [hsi] at h1; exact h1.2
+    unfold expiredGoneOk at hexp
+    rw [List.all_eq_true] at hexp
+    have hd' := hexp d hd
+    cases hg : get? (specStep sp e) d.udn with
+    | none => simp [hg] at hd'
+    | some v =>
+      obtain ⟨x, bb⟩ := v
+      simp only [hg, decide_eq_true_eq] at hd'
+      obtain ⟨m, l, hm, h1, h2⟩ := hsp'.src d.udn x bb hg
+      exact ⟨m, l, by simpa using hm, h1, by rw [h2]; exact hd'⟩
+  | cons p r ih =>
+    intro evs0 sp before hsp hok d hd
+    obtain ⟨e1, a1⟩ := p
+    simp only [List.cons_append, okFrom, Bool.and_eq_true] at hok
+    obtain ⟨m, l, hm, h1, h2⟩ := ih (evs0 ++ [e1]) (specStep sp e1) a1 (spFrom_step hsp e1) hok.2 d hd
+    exact ⟨m, l, by simpa [List.append_assoc] using hm, h1, h2⟩
 
 /-! ### the clauses of the property, stated directly on the model -/
 
@@ -429,11 +483,36 @@ theorem valid_to_saturates (cfg : Cfg) (ts : Int) (cc : String) :
     (ts + Parse.maxAgeUs cfg cc > cfg.tMax → ts + Parse.effMaxAge cfg ts cc = cfg.tMax) :=
   ⟨Parse.effMaxAge_le cfg ts cc, Parse.effMaxAge_exact cfg ts cc, Parse.effMaxAge_saturated cfg ts cc⟩
 
-/-- **max_age_default** — a cache-control value in which the regex cannot match (no `m` / `M` at all, e.g. absent,
-    empty, `no-cache`) announces 900 s -/
-theorem max_age_default (cc : String) (h : ∀ c ∈ cc.toList, Parse.lowerC c ≠ 'm') :
+/-- **max_age_default** — "900 s when none is given": a cache-control value in which the regex `max-age\\s*=\\s*\\d+`
+    (any casing) has no match announces 900 s.  This is the weakest hypothesis the text licenses; it covers an absent or
+    empty header, `no-cache`, `must-revalidate`, `max-stale=5, min-fresh=3`, and `max-age` without digits. -/
+theorem max_age_default (cc : String) (h : Parse.maxAgeSearch cc.toList = none) :
     Parse.maxAgeUs specCfg cc = 900 * 1000000 := by
-  rw [Parse.maxAgeUs_default specCfg cc (Parse.maxAgeSearch_none _ h)]; rfl
+  rw [Parse.maxAgeUs_default specCfg cc h]; rfl
+
+/-- corollaries: no directive named `max-age` at all (any casing), in particular no letter `m` / `M` -/
+theorem max_age_default_no_directive (cc : String)
+    (h : Parse.isInfixL "max-age".toList (Parse.lowerL cc.toList) = false) :
+    Parse.maxAgeUs specCfg cc = 900 * 1000000 :=
+  max_age_default cc (Parse.maxAgeSearch_none_of_no_infix _ h)
+
+example : Parse.maxAgeUs specCfg "" = 900 * 1000000 ∧ Parse.maxAgeUs specCfg "must-revalidate" = 900 * 1000000 ∧
+    Parse.maxAgeUs specCfg "max-stale=5, min-fresh=3" = 900 * 1000000 ∧ Parse.maxAgeUs specCfg "max-age=" = 900 * 1000000 ∧
+    Parse.maxAgeUs specCfg "Max-Age = 30, public" = 30 * 1000000 := by decide
+
+/-- **max_age_value_general** — the licensed general form of `max_age_value`: in ANY cache-control text whose leftmost
+    `max-age\\s*=\\s*\\d+` match (any casing of `max-age`, anything without `m`/`M` before it, white space around `=`,
+    any non-digit continuation) carries the numeral of `n`, the announced max-age is `n` seconds (n < 10⁹ days). -/
+theorem max_age_value_general (junk pre ws1 ws2 rest : List Char) (n : Nat)
+    (hj : ∀ c ∈ junk, Parse.lowerC c ≠ 'm') (hpre : Parse.lowerL pre = "max-age".toList)
+    (hw1 : ∀ c ∈ ws1, Parse.isWs c = true) (hw2 : ∀ c ∈ ws2, Parse.isWs c = true)
+    (hrest : rest.takeWhile Parse.isDigit = []) (hn : n < 86400000000000) :
+    Parse.maxAgeUs specCfg (String.ofList (junk ++ (pre ++ (ws1 ++ '=' :: (ws2 ++ (Parse.dec n ++ rest)))))) =
+      (n : Int) * 1000000 :=
+  Parse.maxAgeUs_dec specCfg junk pre ws1 ws2 rest n hj hpre hw1 hw2 hrest hn (by
+    have := Parse.dec_length n 14 (by omega)
+    show (Parse.dec n).length ≤ 4300
+    omega)
 
 /-- **loopback_rejected** — the host decides, not a substring: a location whose parsed host is loopback or IPv4
     link-local (`Parse.hostBad`: any dotted quad in 127/8 or 169.254/16 — `Parse.hostBad_v4` —, `::1` in any spelling,
@@ -498,6 +577,53 @@ theorem valid_search_raw (cfg : Cfg) (pairs : List (String × String)) (s : Trac
   have := present_sight Parse.ipVersion (Parse.skipHdr cfg) hi _ hw u loc hsi
   simpa [Parse.mkMsg, Parse.tsOf, Parse.hget, Parse.get?_write_source _ _ "_timestamp" (by decide),
     Parse.get?_write_source _ _ "cache-control" (by decide)] using this
+
+/-- **present_within_max_age_raw** — clause 1 from the raw headers: after any history `pre`, a decoded search response
+    (not an M-SEARCH echo, no NTS) whose USN names `u`, with a type and a usable LOCATION `loc`, followed by any raw
+    operations none of which names `u` (no byebye for / valid sighting of `u`) and of which those that run the purge
+    carry a `_timestamp` ≤ `_timestamp + max-age(cache-control)` (saturated at `datetime.max`): `u` is known at the
+    end, with exactly that `valid_to` and with `loc` among its locations. -/
+theorem present_within_max_age_raw (cfg : Cfg) (pre post : List Parse.RawOp) (pairs : List (String × String))
+    (hudn : (Parse.RawOp.pkt false pairs).decoded cfg) (usn u ty loc : String)
+    (hman : Parse.hget (C16.SMap.writeAll Parse.lower [] pairs) "man" ≠ some Parse.ssdpDiscover)
+    (hnts : Parse.truthy (get? (C16.SMap.writeAll Parse.lower [] pairs) "nts") = none)
+    (husn : Parse.truthy (get? (C16.SMap.writeAll Parse.lower [] pairs) "usn") = some usn)
+    (hu : Parse.udnFromUsn usn = some u)
+    (hst : Parse.truthy (get? (C16.SMap.writeAll Parse.lower [] pairs) "st") = some ty)
+    (hloc : Parse.truthy (get? (C16.SMap.writeAll Parse.lower [] pairs) "location") = some loc)
+    (hok : Parse.locUsable cfg.searchPrefix cfg.schemes cfg.loopbackNames loc = true)
+    (hpost : ∀ o ∈ post, o.decoded cfg ∧
+      ((o.ev cfg).purges = true → (o.ev cfg).time ≤ Parse.tsOf (C16.SMap.writeAll Parse.lower [] pairs) +
+        Parse.effMaxAge cfg (Parse.tsOf (C16.SMap.writeAll Parse.lower [] pairs))
+          ((Parse.hget (C16.SMap.writeAll Parse.lower [] pairs) "cache-control").getD "")) ∧
+      (o.ev cfg).names u = false) :
+    Present (final Parse.ipVersion (Parse.skipHdr cfg) {}
+        ((pre ++ Parse.RawOp.pkt false pairs :: post).map (Parse.RawOp.ev cfg))) u loc
+      (Parse.tsOf (C16.SMap.writeAll Parse.lower [] pairs) +
+        Parse.effMaxAge cfg (Parse.tsOf (C16.SMap.writeAll Parse.lower [] pairs))
+          ((Parse.hget (C16.SMap.writeAll Parse.lower [] pairs) "cache-control").getD "")) := by
+  have hfin : final Parse.ipVersion (Parse.skipHdr cfg) {}
+      ((pre ++ Parse.RawOp.pkt false pairs :: post).map (Parse.RawOp.ev cfg)) =
+      final Parse.ipVersion (Parse.skipHdr cfg)
+        (step Parse.ipVersion (Parse.skipHdr cfg) (final Parse.ipVersion (Parse.skipHdr cfg) {} (pre.map (Parse.RawOp.ev cfg)))
+          (Parse.parseEv cfg false pairs)).1 (post.map (Parse.RawOp.ev cfg)) := by
+    simp [final, List.foldl_append, Parse.RawOp.ev]
+  rw [hfin]
+  have hi0 := watermark_inv Parse.ipVersion (Parse.skipHdr cfg) (pre.map (Parse.RawOp.ev cfg))
+  have hp0 := valid_search_raw cfg pairs _ hi0 hudn usn u ty loc hman hnts husn hu hst hloc hok
+  have hi1 := inv_step Parse.ipVersion (Parse.skipHdr cfg) hi0 (Parse.parseEv cfg false pairs)
+  generalize (step Parse.ipVersion (Parse.skipHdr cfg)
+    (final Parse.ipVersion (Parse.skipHdr cfg) {} (pre.map (Parse.RawOp.ev cfg))) (Parse.parseEv cfg false pairs)).1 = s1
+    at hp0 hi1
+  clear hfin hi0
+  induction post generalizing s1 with
+  | nil => exact hp0
+  | cons o r ih =>
+    obtain ⟨hd, ht, hn⟩ := hpost o List.mem_cons_self
+    simp only [List.map_cons, final, List.foldl_cons]
+    exact ih (fun x hx => hpost x (List.mem_cons_of_mem _ hx)) _
+      (present_step Parse.ipVersion (Parse.skipHdr cfg) hi1 hp0 (o.ev cfg) (Parse.RawOp.ev_wf cfg o hd) ht hn)
+      (inv_step Parse.ipVersion (Parse.skipHdr cfg) hi1 (o.ev cfg))
 
 /-- **byebye_exact_raw** — end to end from the raw headers: a packet on the advertisement socket with `NTS: ssdp:byebye`
     (not an M-SEARCH echo), whose USN names the device `u` and which has a non-empty NT, removes `u` and only `u` from
